@@ -315,6 +315,13 @@ def run_roundtrip(recipe, setup=None, max_steps=3000000, max_paths=4096, solver_
             p.ctx['bcdata'] = simp(p.read(p.ctx['bc'], off['bytecode']['bytecode'], 8))
             p.ctx['bclen'] = simp(p.read(p.ctx['bc'], off['bytecode']['length'], 4))
         live = advance(live, 'parse', 'orc_bytecode_parse_function', bcptr, lambda q: q.ctx.__setitem__('parse_ret', q.ret))
+        # re-encode the reconstruction: the bytes must come out the same again
+        live = advance(live, 'reencode', 'orc_bytecode_from_program', lambda c: [c['p2']],
+                       lambda q: q.ctx.__setitem__('bc2', simp(q.ret)))
+        for p in live:
+            if p.ctx.get('bc2') is not None and p.status == 'ok':
+                p.ctx['bcdata2'] = simp(p.read(p.ctx['bc2'], off['bytecode']['bytecode'], 8))
+                p.ctx['bclen2'] = simp(p.read(p.ctx['bc2'], off['bytecode']['length'], 4))
     base = ex.gaddr[[k for k in S.m.globals if k.split('$')[0] == 'opcodes'][0]]
     nops = len(S.optable)
     out = []
@@ -328,6 +335,10 @@ def run_roundtrip(recipe, setup=None, max_steps=3000000, max_paths=4096, solver_
                 rt['p2'] = program_fields(p, c['p2'], off, base, nops)
             if c.get('bcdata') and type(c.get('bclen')) is int:
                 rt['bytecode'] = [simp(p.read(c['bcdata'], i, 1)) for i in range(c['bclen'])]
+            if c.get('bcdata2') and type(c.get('bclen2')) is int:
+                rt['bytecode2'] = [simp(p.read(c['bcdata2'], i, 1)) for i in range(c['bclen2'])]
+            elif c.get('bclen2') is not None:
+                rt['bytecode2_len'] = c.get('bclen2')
             rt['parse_ret'] = c.get('parse_ret')
         except Exception as e:       # reading back must not hide the path
             rt['readback_error'] = repr(e)
